@@ -205,6 +205,9 @@ Proof.
         exists (q - k). split; [lia|]. unfold st in *. nia.
 Qed.
 
+(* the div/mod preprocessing of lia is needed for the Range proofs only (it is slow elsewhere) *)
+Ltac Zify.zify_post_hook ::= idtac.
+
 (* ---------------------------------------------------------------- arrays: nat-indexed facts *)
 Lemma upd_length : forall (l : list Z) i v, length (upd l i v) = length l.
 Proof. induction l as [|h t IH]; intros [|i] v; simpl; try reflexivity. rewrite IH. reflexivity. Qed.
